@@ -1,5 +1,5 @@
 (* VssModel: executable model of Pedersen's verifiable secret sharing as implemented in
-   /repo/src/PedersenVSS.cc (dealer :268-457, receiver :470-719, reconstruction :731-875) and of the
+   /repo/src/PedersenVSS.cc (dealer :268-457, receiver :470-721, reconstruction :733-877; tree with fix 3258c3f) and of the
    polynomial interpolation helper tmcg_interpolate_polynom (/repo/src/mpz_helper.cc:145-237).
    Definitions only.  The protocol is modelled as a synchronous round function: the messages of the
    other parties (broadcast complaint streams, the dealer's resolution stream) are inputs.
@@ -106,6 +106,16 @@ Fixpoint resolve (p q g h n i : Z) (As : list Z) (from res : list Z) (bad : bool
 
 Record vss_out := { vo_ret : bool; vo_sigma : Z; vo_tau : Z }.
 
+(* the receiver's list of complaining parties (PedersenVSS.cc:586-618, since fix 3258c3f): its own index if it complained itself,
+   then the complaining other parties; std::sort => ascending.  `others` is ascending and does not contain i. *)
+Fixpoint ins_sorted (i : Z) (l : list Z) : list Z :=
+  match l with
+  | [] => [i]
+  | j :: r => if i <? j then i :: l else j :: ins_sorted i r
+  end.
+Definition recv_from (n dealer i : Z) (own : bool) (streams : list (Z * list Z)) : list Z :=
+  if own then ins_sorted i (complaints_from n dealer streams) else complaints_from n dealer streams.
+
 (* the receiver P_i of PedersenVSS::Share(dealer, ...) as a function of everything it receives:
    As (commitments), (s, t) (its share pair), streams = [(j, values broadcast by P_j)] for j <> i, dealer ascending,
    res = the values the dealer broadcasts afterwards.  None = the library throws. *)
@@ -116,8 +126,8 @@ Definition vss_receive (p q g h n t i dealer : Z) (As : list Z) (s tt : Z)
   | Some own =>
     let s0 := zero_unless (in_range q s) s in
     let t0 := zero_unless (in_range q tt) tt in
-    let from := complaints_from n dealer streams in
-    let counter := (if own then 1 else 0) + Z.of_nat (length from) in
+    let from := recv_from n dealer i own streams in
+    let counter := (if own then 1 else 0) + Z.of_nat (length (complaints_from n dealer streams)) in
     if disqualified t counter then Some {| vo_ret := false; vo_sigma := s0; vo_tau := t0 |}
     else if 0 <? counter then
       match resolve p q g h n i As from res false s0 t0 with
